@@ -91,8 +91,12 @@ D = tempfile.mkdtemp(prefix="verif-replay-")
 try:
 %(build)s
     pf = fastparquet.ParquetFile(path)
+    try:
 '''
 _SNIP_TAIL = '''
+    except Exception as _e:      # a raising read is a failed contract
+        import traceback; traceback.print_exc()
+        VIOLATED = True
 finally:
     shutil.rmtree(D, ignore_errors=True)
 print("VIOLATED =", VIOLATED)
@@ -113,7 +117,7 @@ def make_snippet(name, body):
     else:
         build = recipe_code(name)
     return (_SNIP_HEAD % {"source_frame": inspect.getsource(source_frame), "build": _indent(build)}
-            + _indent(body) + _SNIP_TAIL)
+            + _indent(body, 8) + _SNIP_TAIL)
 
 
 # name -> recipe.  offsets are row_group_offsets of fastparquet.write
@@ -444,15 +448,17 @@ class View:
         else:
             self.base = self.full.reset_index(drop=True)
         self.partcols = list(pf.cats)
+        self._concat_cache = {}
 
     def sat(self, filters, **kw):
         return filter_sat(self.base, filters, colmap=self.colmap, **kw)
 
     def concat(self, J, columns=None):
-        ps = [self.pieces[j] for j in J]
-        if not ps:
-            return self.full.iloc[:0]
-        return concat_frames(ps)
+        key = tuple(J)
+        if key not in self._concat_cache:
+            ps = [self.pieces[j] for j in J]
+            self._concat_cache[key] = concat_frames(ps) if ps else self.full.iloc[:0]
+        return self._concat_cache[key]
 
     def match_row_groups(self, got):
         """Find ascending J with got == concat(pieces[J]) (values, canonical). None if impossible."""
@@ -510,8 +516,8 @@ def _arr_equal(a, b):
 def frames_equal(a, b, index_values=True):
     if list(map(str, a.columns)) != list(map(str, b.columns)) or len(a) != len(b):
         return False
-    for k in range(a.shape[1]):
-        if not _arr_equal(a.iloc[:, k], b.iloc[:, k]):
+    for (_, sa), (_, sb) in zip(a.items(), b.items()):
+        if not _arr_equal(sa, sb):
             return False
     ra, rb = isinstance(a.index, pd.RangeIndex), isinstance(b.index, pd.RangeIndex)
     if ra or rb:
